@@ -256,6 +256,16 @@ func c17Defs() []c17Def {
 			vsched.Join(b)
 			stale(x)
 		}},
+		{Name: "abandon-idle-under-traffic", Run: func(x *c17Ctx) {
+			// the service runs the stale-transaction pass before every begin request: requests keep arriving every 2 s
+			// while the abandoned writer passes its idle limit (30 s)
+			a := x.client("A", false, func(id string, tx transaction.Transaction) { tx.Put([]byte("a"), []byte("A")) })
+			vsched.Join(a)
+			for i := 0; i < 20; i++ {
+				vtime.Advance(2 * time.Second)
+				x.reg.(*transaction.RegistryImpl).CleanupStaleTransactions()
+			}
+		}},
 		{Name: "abandon-idle-ticker", Env: map[string]int{"ticker:transaction/registry.go": 2}, Run: func(x *c17Ctx) {
 			a := x.client("A", false, func(id string, tx transaction.Transaction) { tx.Put([]byte("a"), []byte("A")) })
 			vsched.Join(a)
@@ -425,7 +435,7 @@ func init() {
 		ID:    "C17",
 		Level: "model_checking",
 		Rule: "(A) every sequence of <=4 (5 thorough) calls {get, put, delete, scan, commit, rollback} on one read-write and one read-only transaction: the first successful finish takes effect once, every later call returns the closed error and changes nothing, the database is free afterwards (probe begin) and shows exactly the committed effect. " +
-			"(B) stateless exploration of 10 registry scenarios (graceful shutdown also with a context that is already cancelled) (2-3 threads; two simultaneous read-only begins followed by a writer is the ninth): begin waiting for the lock while the 10 s begin timeout fires as an environment event (every ready select case explored), abandonment followed by idle cleanup (direct and through the cleanup ticker), connection cleanup, graceful shutdown, commit racing rollback, stale cleanup racing commit; all interleavings up to the deviation bound (2 quick, 3 thorough) with happens-before caching. Oracle: after every terminal state a probe BeginTransaction(false) is granted (otherwise the scheduler reports the deadlock with the blocked sites), a write is visible iff its commit reported success, commit and rollback never both succeed. (C) the scenarios without long real-time waits run free in a -race build (8 / 100 iterations each): any race report, panic or hang is a violation - the exploration interleaves at synchronisation operations only, which is sufficient only if there is no unsynchronised access. Non-trivial = executions with a cross-thread conflict",
+			"(B) stateless exploration of 11 registry scenarios (idle cleanup also under a steady stream of cleanup calls 2 s apart) (graceful shutdown also with a context that is already cancelled) (2-3 threads; two simultaneous read-only begins followed by a writer is the ninth): begin waiting for the lock while the 10 s begin timeout fires as an environment event (every ready select case explored), abandonment followed by idle cleanup (direct and through the cleanup ticker), connection cleanup, graceful shutdown, commit racing rollback, stale cleanup racing commit; all interleavings up to the deviation bound (2 quick, 3 thorough) with happens-before caching. Oracle: after every terminal state a probe BeginTransaction(false) is granted (otherwise the scheduler reports the deadlock with the blocked sites), a write is visible iff its commit reported success, commit and rollback never both succeed. (C) the scenarios without long real-time waits run free in a -race build (8 / 100 iterations each): any race report, panic or hang is a violation - the exploration interleaves at synchronisation operations only, which is sufficient only if there is no unsynchronised access. Non-trivial = executions with a cross-thread conflict",
 		Assumptions: []string{"virtual time: the 10 s begin timeout, the 30 s idle limit and the cleanup ticker are environment events / clock jumps", "a client never requests a second transaction while holding one (excluded by the statement)"},
 		Units: func(tier string) []string {
 			us := []string{"seq/rw", "seq/ro"}
